@@ -138,11 +138,11 @@ theorem mrel_loopDispatch (P : Prims) (hP : PrimsRespect t d P) (loc : Loc) (tr 
     unfold loopDispatch
     exact mrel_loopIterate P hP loc tr var colsE hb (.cons hx hxs)
 
-theorem loopItems_rel {v v' : GoVal} (h : URel d v v') : RRel t (All2 (RepEq d)) (loopItems v) (loopItems v') := by
+theorem loopItems_rel {budget : Int} {v v' : GoVal} (h : URel d v v') : RRel t (All2 (RepEq d)) (loopItems budget v) (loopItems budget v') := by
   rcases loopItems_unw_rel h.1 h.2.1 h.2.2 with ⟨xs, xs', h1, h2, hn⟩ | ⟨h1, h2⟩
   · rw [h1, h2]; exact all2_of_normList hn
   · rw [← h1]
-    cases hl : loopItems v with
+    cases hl : loopItems budget v with
     | ok xs => exact absurd hl (h2 xs)
     | _ => simp [RRel]
 
@@ -154,10 +154,10 @@ theorem all2_selectItems {xs xs' : List GoVal} (h : All2 (RepEq d) xs xs') (rev 
   | nil => rfl
   | cons hx _ ih => simp only [normList, ih]; rw [hx]
 
-theorem mrel_loopRun (P : Prims) (hP : PrimsRespect t d P) (path : Bytes) (loc : Loc) (tr : Bool) (var : Bytes) (e : Expr)
+theorem mrel_loopRun {budget : Int} (P : Prims) (hP : PrimsRespect t d P) (path : Bytes) (loc : Loc) (tr : Bool) (var : Bytes) (e : Expr)
     (mods : LoopMods) {bodyM : M Status} (hb : MRel t d Eq bodyM bodyM) (tooMany : Bool)
     (elseM : Option (M Status)) (he : ∀ m, elseM = some m → MRel t d Eq m m) :
-    MRel t d Eq (loopRun P path loc tr var e mods bodyM tooMany elseM) (loopRun P path loc tr var e mods bodyM tooMany elseM) := by
+    MRel t d Eq (loopRun budget P path loc tr var e mods bodyM tooMany elseM) (loopRun budget P path loc tr var e mods bodyM tooMany elseM) := by
   unfold loopRun
   refine mrel_wrapAt _ _ (mrel_evaluate P hP e (fun v v' hv => ?_))
   refine mrel_bind (mrel_ofRes (loopItems_rel hv)) (fun items items' hi => ?_)
